@@ -424,7 +424,24 @@ static void case_simple_sequence(unsigned seq) {
     const double d = ldexp(1.0, dexp);
     double* x = malloc(n * 8);
     double* ratio = malloc(n * 8);
-    if (rng_u64(r) & 1) {
+    if (rng_u64(r) % 3 == 0) {
+      // int64 -> double through the simple API with a changing announced bound (small first, large later, and back)
+      static const unsigned FB[] = {12, 50, 30, 20, 40, 50};
+      const unsigned bound = FB[rng_u64(r) % ARRAY_LEN(FB)];
+      int64_t* in = malloc(n * 8);
+      for (uint64_t i = 0; i < n; i++) {
+        in[i] = rng_sbits(r, bound);
+        if ((i & 3) == 0) in[i] = ((i & 4) ? 1 : -1) * (((int64_t)1 << bound) - 1 - (int64_t)(rng_u64(r) & 7));  // at both ends of the announced range
+      }
+      reim_from_znx64_simple((uint32_t)m, bound, x, in);
+      for (uint64_t i = 0; i < n; i++)
+        if (x[i] != (double)in[i]) {
+          viol("oracle", "reim_from_znx64_simple(m=%" PRIu64 ", log2bound=%u) at step %d of a parameter sequence: %" PRId64 " -> %.17g", m, bound, step, in[i], x[i]);
+          break;
+        }
+      free(in);
+      cnt("conv:reim_from_znx64", n);
+    } else if (rng_u64(r) & 1) {
       const unsigned bound = BD[rng_u64(r) % 4];
       int64_t* out = malloc(n * 8);
       gen_ratios(r, n, bound > 52 ? 52 : (int)bound, ratio, (unsigned)step);
@@ -462,6 +479,84 @@ static void case_simple_sequence(unsigned seq) {
   }
   sample("24 calls with changing (m, divisor, bound/overhead), each checked against its own contract");
   case_end(1);
+}
+
+// conversion tables are created, used and freed one after the other (so that the allocator hands the same address to
+// the next table) with the same dimension and divisor but another bound / overhead, or re-initialised in place: every
+// table must convert according to ITS parameters. The accelerated entry is compared with the reference kernel run on
+// the same table (which is itself held to the exact oracle by the cases above); inputs avoid exact ties.
+uint64_t c14_recycled_tables_core(rng_t* r, unsigned seq);
+static void case_recycled_tables(unsigned seq) {
+  if (!case_begin("conversion tables|created, used, freed, re-created at the same address", "sequence=%u", seq)) return;
+  const uint64_t tables = c14_recycled_tables_core(crng(), seq);
+  cnt("recycled_tables", tables);
+  cnt("values_checked", tables * 16);
+  sample("%" PRIu64 " tables created / used / freed in a row (same m and divisor, changing bound / overhead)", tables);
+  case_end(1);
+}
+uint64_t c14_recycled_tables_core(rng_t* r, unsigned seq) {
+  const uint64_t m = (seq & 1) ? 64 : 8, n = 2 * m;
+  const int dexp = (int)(rng_u64(r) % 5);
+  const double d = ldexp(1.0, dexp);
+  double* x = malloc(n * 8);
+  double* ratio = malloc(n * 8);
+  double *o1 = malloc(n * 8), *o2 = malloc(n * 8);
+  uint64_t tables = 0;
+  REIM_TO_TNX_PRECOMP caller_owned;  // re-initialised in place
+  for (int st = 0; st < 16; st++) {
+    const unsigned kind = (unsigned)(rng_u64(r) % 3);
+    if (kind == 0) {
+      static const unsigned OV[] = {18, 40, 30, 10, 0, 48, 25};
+      const unsigned ovh = OV[rng_u64(r) % ARRAY_LEN(OV)];
+      gen_ratios(r, n, (int)ovh, ratio, (unsigned)st);
+      for (uint64_t i = 0; i < n; i++) x[i] = ratio[i] * d;
+      REIM_TO_TNX_PRECOMP* t;
+      const int inplace_init = (int)(rng_u64(r) & 1);
+      if (inplace_init) { t = &caller_owned; init_reim_to_tnx_precomp(t, (uint32_t)m, d, ovh); }
+      else t = new_reim_to_tnx_precomp((uint32_t)m, d, ovh);
+      reim_to_tnx(t, o1, x);
+      reim_to_tnx_ref(t, o2, x);
+      const double tol = ldexp(1.0, (int)ovh - 49);
+      for (uint64_t i = 0; i < n; i++) {
+        double df = o1[i] - o2[i];
+        df -= rint(df);
+        if (!(fabs(df) <= tol)) {
+          viol("differential", "reim_to_tnx through a table (m=%" PRIu64 ", d=2^%d, log2overhead=%u) %s at step %d of a create/use/free sequence: x/d=%a -> %.17g, reference kernel on the same table %.17g", m, dexp, ovh, inplace_init ? "re-initialised in place" : "re-created", st, ratio[i], o1[i], o2[i]);
+          break;
+        }
+      }
+      if (!inplace_init) free(t);
+    } else if (kind == 1) {
+      static const unsigned BD[] = {40, 50, 52, 63, 30};
+      const unsigned bound = BD[rng_u64(r) % ARRAY_LEN(BD)];
+      gen_ratios(r, n, bound > 52 ? 52 : (int)bound, ratio, (unsigned)st);
+      for (uint64_t i = 0; i < n; i++) {
+        if (ratio[i] * 2 == rint(ratio[i] * 2)) ratio[i] += 0.125;
+        if (ratio[i] != rint(ratio[i]) && ratio[i] * 2 == rint(ratio[i] * 2)) ratio[i] = floor(ratio[i]);  // (above 2^51 the only non-integers are ties)
+        x[i] = ratio[i] * d;
+      }
+      REIM_TO_ZNX64_PRECOMP* t = new_reim_to_znx64_precomp((uint32_t)m, d, bound);
+      reim_to_znx64(t, (int64_t*)o1, x);
+      reim_to_znx64_ref(t, (int64_t*)o2, x);
+      if (memcmp(o1, o2, n * 8)) viol("differential", "reim_to_znx64 through a re-created table (m=%" PRIu64 ", d=2^%d, log2bound=%u) at step %d differs from the reference kernel on the same table", m, dexp, bound, st);
+      free(t);
+    } else {
+      const unsigned ovh = (rng_u64(r) & 1) ? 18 : 30;
+      gen_ratios(r, n, 17, ratio, (unsigned)st);
+      for (uint64_t i = 0; i < n; i++) {
+        if (ratio[i] * 2 == rint(ratio[i] * 2)) ratio[i] += 0.125;
+        x[i] = ratio[i] * d;
+      }
+      CPLX_TO_TNX32_PRECOMP* t = new_cplx_to_tnx32_precomp((uint32_t)m, d, ovh);
+      cplx_to_tnx32(t, (int32_t*)o1, x);
+      cplx_to_tnx32_ref(t, (int32_t*)o2, x);
+      if (memcmp(o1, o2, n * 4)) viol("differential", "cplx_to_tnx32 through a re-created table (m=%" PRIu64 ", d=2^%d, log2overhead=%u) at step %d differs from the reference kernel on the same table", m, dexp, ovh, st);
+      free(t);
+    }
+    tables++;
+  }
+  free(x); free(ratio); free(o1); free(o2);
+  return tables;
 }
 
 // the *_simple conversions from several threads at once, same dimension, a different (divisor, bound / overhead) per
@@ -605,6 +700,7 @@ void run_C14(void) {
     }
   }
   for (unsigned q = 0; q < (th ? 4000u : 200u); q++) case_simple_sequence(q);
+  for (unsigned q = 0; q < (th ? 2000u : 96u); q++) case_recycled_tables(q);
   {
     static const uint64_t CM[] = {8, 2, 64, 1024, 16384};
     for (size_t i = 0; i < ARRAY_LEN(CM); i++)
